@@ -49,12 +49,22 @@ PriceDenoms == {D, "btc"}  \* denoms with a positive supply (binding.go validate
 
 UsersOf(t) == DOMAIN t.bal \ {DEP, REQ, FEEP}
 
+(* Unusual inputs (round 7).
+   ddenom: the denom of the coin a message carries as deposit / service fee cap: "stake" (the base
+           denom, the only one validateDeposit / validateServiceFeeCap accept), another real denom
+           ("btc"), or "both" = two coins (stake and btc).
+   idv:    the spelling of the context / request id a message carries: "" = upper-case hex, "lc" =
+           lower-case hex (hex.DecodeString: the same id), "pfx" / "pad" = one byte short / long
+           (ValidateContextID / ValidateRequestID: wrong length). *)
+BadDenom(e) == e.ddenom # D
+BadId(e) == e.idv \in {"pfx", "pad"}
+
 CtxId(n) == "c" \o ToString(n)
 ReqId(c, n, i) == c \o "-" \o ToString(n) \o "-" \o ToString(i)
 
 NoEv == [name |-> "Init", who |-> "", svc |-> "", prov |-> "", provs |-> <<>>, ctx |-> "", req |-> "",
          amt |-> 0, price |-> 0, tStart |-> 0, tEnd |-> 0, tDisc |-> 4, vVol |-> 0, vDisc |-> 4,
-         setp |-> FALSE, pdenom |-> "stake", qos |-> 0, timeout |-> 0, repeated |-> FALSE, freq |-> 0, total |-> 0,
+         setp |-> FALSE, pdenom |-> "stake", ddenom |-> "stake", idv |-> "", qos |-> 0, timeout |-> 0, repeated |-> FALSE, freq |-> 0, total |-> 0,
          thr |-> 0, paused0 |-> FALSE, okres |-> TRUE, to |-> "", dt |-> 1, rank |-> 0, rn |-> 0, rd |-> 1,
          ok |-> TRUE, panic |-> FALSE, halt |-> FALSE, cbs |-> <<>>, scbs |-> <<>>]
 
@@ -160,7 +170,7 @@ DoBind(s, e) ==
   ELSE IF e.svc \notin DOMAIN s.defs THEN Fail(s)
   ELSE IF HasBind(s, e.svc, p) THEN Fail(s)
   ELSE IF p \in DOMAIN s.owner /\ s.owner[p] # o THEN Fail(s)
-  ELSE IF e.amt <= 0 THEN Fail(s)                       \* validateDeposit: one coin of the base denom
+  ELSE IF e.amt <= 0 \/ BadDenom(e) THEN Fail(s)        \* validateDeposit: one coin of the base denom
   ELSE IF e.qos > s.params.maxTimeout THEN Fail(s)
   ELSE IF e.pdenom \notin PriceDenoms THEN Fail(s)         \* validatePricing
   ELSE IF MinDepErr(s, PricingOf(e)) THEN FailW(s, "no_rate")
@@ -181,6 +191,7 @@ DoUpdateBinding(s, e) ==
     LET b == s.bind[e.svc][e.prov] IN
     IF e.who # b.owner THEN FailW(s, "unauthorized")
     ELSE IF e.qos # 0 /\ e.qos > s.params.maxTimeout THEN Fail(s)
+    ELSE IF e.amt > 0 /\ BadDenom(e) THEN Fail(s)          \* validateDeposit
     ELSE
       LET add == IF e.amt > 0 THEN e.amt ELSE 0
           b1 == [b EXCEPT !.qos = IF e.qos # 0 THEN e.qos ELSE @, !.deposit = @ + add]
@@ -195,9 +206,11 @@ DoUpdateBinding(s, e) ==
       ELSE IF BalOf(s, e.who) < add THEN Fail(s)
       ELSE Done(Pay(PutBind(s, e.svc, e.prov, b2), e.who, DEP, add))
 
-(* msg_server.go: SetWithdrawAddress (blocked addresses are refused) *)
+(* msg_server.go: SetWithdrawAddress (blocked addresses are refused: the SDK fee collector and,
+   since 20cb755, the service module's own three accounts) *)
+BlockedNames == {"blocked", DEP, REQ, FEEP}
 DoSetWithdraw(s, e) ==
-  IF e.to = "blocked" THEN Fail(s)
+  IF e.to \in BlockedNames THEN Fail(s)
   ELSE Done([s EXCEPT !.withdraw = Put(s.withdraw, e.who, e.to)])
 
 (* binding.go: DisableServiceBinding *)
@@ -219,6 +232,7 @@ DoEnable(s, e) ==
         add == IF e.amt > 0 THEN e.amt ELSE 0 IN
     IF e.who # b.owner THEN FailW(s, "unauthorized")
     ELSE IF b.available THEN Fail(s)
+    ELSE IF e.amt > 0 /\ BadDenom(e) THEN Fail(s)          \* validateDeposit
     ELSE IF MinDepErr(s, b) THEN FailW(s, "no_rate")
     ELSE IF b.deposit + add < MinDep(s, BasePrice(s, b)) THEN Fail(s)
     ELSE IF BalOf(s, e.who) < add THEN Fail(s)
@@ -252,7 +266,7 @@ ValidRequest(e) ==
 (* invocation.go: CreateRequestContext after the module-specific checks *)
 Create(s, e, mod, thr, state0) ==
   IF e.svc \notin DOMAIN s.defs THEN Fail(s)
-  ELSE IF e.amt <= 0 THEN Fail(s)                       \* validateServiceFeeCap
+  ELSE IF e.amt <= 0 \/ BadDenom(e) THEN Fail(s)        \* validateServiceFeeCap: one coin of the base denom
   ELSE IF e.timeout > s.params.maxTimeout THEN Fail(s)
   ELSE
     LET id == CtxId(s.seq + 1)
@@ -321,14 +335,16 @@ AuthFail(s, e, viaMsg) ==
   ELSE c.module # "" /\ e.who # c.consumer
 
 DoPause(s, e, viaMsg) ==
-  IF e.ctx \notin DOMAIN s.ctx THEN Fail(s)
+  IF viaMsg /\ BadId(e) THEN FailW(s, "validate_basic")
+  ELSE IF e.ctx \notin DOMAIN s.ctx THEN Fail(s)
   ELSE IF AuthFail(s, e, viaMsg) THEN FailW(s, "unauthorized")
   ELSE IF ~s.ctx[e.ctx].repeated THEN Fail(s)
   ELSE IF s.ctx[e.ctx].state # "running" THEN Fail(s)
   ELSE Done([s EXCEPT !.ctx[e.ctx].state = "paused"])
 
 DoStart(s, e, viaMsg) ==
-  IF e.ctx \notin DOMAIN s.ctx THEN Fail(s)
+  IF viaMsg /\ BadId(e) THEN FailW(s, "validate_basic")
+  ELSE IF e.ctx \notin DOMAIN s.ctx THEN Fail(s)
   ELSE IF AuthFail(s, e, viaMsg) THEN FailW(s, "unauthorized")
   ELSE IF s.ctx[e.ctx].state # "paused" THEN Fail(s)
   ELSE
@@ -337,7 +353,8 @@ DoStart(s, e, viaMsg) ==
          THEN AddNew(s1, e.ctx, s.h) ELSE s1)
 
 DoKill(s, e, viaMsg) ==
-  IF e.ctx \notin DOMAIN s.ctx THEN Fail(s)
+  IF viaMsg /\ BadId(e) THEN FailW(s, "validate_basic")
+  ELSE IF e.ctx \notin DOMAIN s.ctx THEN Fail(s)
   ELSE IF AuthFail(s, e, viaMsg) THEN FailW(s, "unauthorized")
   ELSE IF ~s.ctx[e.ctx].repeated THEN Fail(s)
   ELSE Done([s EXCEPT !.ctx[e.ctx].state = "completed"])
@@ -351,7 +368,7 @@ ValidUpdating(e) ==
 
 (* invocation.go: UpdateRequestContext *)
 DoUpdate(s, e, viaMsg) ==
-  IF viaMsg /\ ~ValidUpdating(e) THEN FailW(s, "validate_basic")
+  IF viaMsg /\ (~ValidUpdating(e) \/ BadId(e)) THEN FailW(s, "validate_basic")
   ELSE IF e.ctx \notin DOMAIN s.ctx THEN Fail(s)
   ELSE IF AuthFail(s, e, viaMsg) THEN FailW(s, "unauthorized")
   ELSE
@@ -365,6 +382,7 @@ DoUpdate(s, e, viaMsg) ==
     IF c.state = "completed" THEN Fail(s)
     ELSE IF isMod /\ ~ValidUpdating(e) THEN Fail(s)
     ELSE IF isMod /\ thr > Len(pds) THEN Fail(s)
+    ELSE IF e.amt > 0 /\ BadDenom(e) THEN Fail(s)          \* validateServiceFeeCap
     ELSE IF e.timeout > s.params.maxTimeout THEN Fail(s)
     ELSE IF freq < timeout THEN Fail(s)
     ELSE IF e.total >= 1 /\ e.total < c.batch THEN Fail(s)
@@ -388,7 +406,8 @@ CbOf(c, id, outs) ==
 
 (* invocation.go: AddResponse (+ fees.go AddEarnedFee) *)
 DoRespond(s, e) ==
-  IF e.req \notin DOMAIN s.req THEN FailW(s, "unknown_request")
+  IF BadId(e) THEN FailW(s, "validate_basic")
+  ELSE IF e.req \notin DOMAIN s.req THEN FailW(s, "unknown_request")
   ELSE
     LET r == s.req[e.req] IN
     IF r.ctx \notin DOMAIN s.ctx THEN FailW(s, "unknown_request")
@@ -1265,6 +1284,12 @@ SetupD == << BSpec("u1", "u1", 8, 4, 2, 0, 1000, 4, 0, 1),
    tallies in two denoms (regression universe of finding F35, fixed by a72912e) *)
 SetupE == << BSpec("u1", "u1", 8, 4, 4, 0, 0, 4, 0, 1),
              [pdenom |-> "btc"] @@ BSpec("u2", "u1", 4, 2, 4, 0, 0, 4, 0, 1) >>
+(* the probing generator's universe: u1 priced in the base denom with a time discount, u2 (own
+   owner) priced 2 btc: min deposit 4 at rate 2 (one slash of 1/2 takes the deposit of 6 below
+   it), 2 at rate 1/2; rate 0 = no rate *)
+SetupP == << BSpec("u1", "u1", 8, 4, 2, 0, 1000, 4, 0, 1),
+             [pdenom |-> "btc"] @@ BSpec("u2", "u2", 6, 2, 4, 0, 0, 4, 0, 1) >>
+RateValsP == { <<0, 1>>, <<1, 2>>, <<2, 1>> }
 RateValsNone == {}
 RateValsE == { <<0, 1>>, <<1, 2>> }
 ProvSeqsE == { <<"u1", "u2">>, <<"u2">> }
@@ -1294,6 +1319,114 @@ GenDepth == atoi(IOEnv.GEN_DEPTH)
 GenConstraint ==
   /\ Len(hist) <= GenDepth
   /\ (Len(hist) = GenDepth) => PrintT(<<"BEHAVIOUR", ToJson(hist)>>)
+
+-----------------------------------------------------------------------------
+(***************************************************************************)
+(* Probing generator (round 7: negative probing and unusual inputs).       *)
+(*                                                                         *)
+(* GenNext picks uniformly among ALL successor states, so the few hundred   *)
+(* ways to call the service crowd out the one way to end a block, and it    *)
+(* keeps rejections rare: its behaviours are shallow and polite.  GenNextP  *)
+(* draws the KIND of the next event first (RandomElement, once per step):   *)
+(* block ends, rate changes, answers, consumer commands, provider commands  *)
+(* each get a fixed share, so that behaviours reach deep states (batches in *)
+(* flight / expired / skipped, bindings disabled / slashed out / refunded,  *)
+(* contexts paused / killed / removed, the exchange rate taken away between *)
+(* issue and expiry).  The prefix consists of ACCEPTED events only; the     *)
+(* last ProbeLen events are operations the specification REJECTS, drawn     *)
+(* from Next plus the Probe* actions below: every message type on every     *)
+(* object that ever existed (also removed contexts and settled requests),   *)
+(* by every role, with ids spelt differently / of the wrong length and      *)
+(* coins of the wrong denom.  The harness executes the closing probes in    *)
+(* one block and then runs its epilogue from the REAL state, so whatever    *)
+(* the code wrongly accepted unfolds under the clauses.                     *)
+(***************************************************************************)
+AllCtxIds(s) == {CtxId(k) : k \in 1..s.seq}
+WrongDenoms == {"btc", "both"}
+IdVariants == {"", "lc", "pfx", "pad"}
+
+ProbeCtx ==
+  \E who \in Actors, id \in AllCtxIds(st), nm \in {"Pause", "Start", "Kill", "Update"}, v \in IdVariants :
+    LET mod == id \in DOMAIN st.ctx /\ st.ctx[id].module # "" /\ who = st.ctx[id].consumer IN
+    Step([E(IF mod THEN "Mod" \o nm ELSE nm, who) EXCEPT !.ctx = id, !.idv = IF mod THEN "" ELSE v])
+
+(* every request that ever existed (the ghost ans remembers them), by every provider *)
+ProbeRespond ==
+  \E who \in Provs, r \in DOMAIN gh.ans, v \in IdVariants :
+    Step([E("Respond", who) EXCEPT !.req = r, !.idv = v])
+
+ProbeBinding ==
+  \E o \in Users, p \in Provs :
+    \/ Step([E("Disable", o) EXCEPT !.svc = SVC, !.prov = p])
+    \/ Step([E("RefundDeposit", o) EXCEPT !.svc = SVC, !.prov = p])
+    \/ \E a \in {0, 2}, d \in {D} \cup WrongDenoms :
+         \/ Step([E("Enable", o) EXCEPT !.svc = SVC, !.prov = p, !.amt = a, !.ddenom = d])
+         \/ \E q \in {0, 1, MaxTimeout + 1} :
+              Step([E("UpdateBinding", o) EXCEPT !.svc = SVC, !.prov = p, !.amt = a, !.ddenom = d, !.qos = q])
+         \/ Step([E("Bind", o) EXCEPT !.svc = SVC, !.prov = p, !.amt = 6 + a, !.ddenom = d, !.price = 1, !.qos = 1])
+    \/ \E pr \in {0, 3, 9}, pd \in MDenoms \cup {"nosupply"} :
+         Step([E("UpdateBinding", o) EXCEPT !.svc = SVC, !.prov = p, !.setp = TRUE, !.price = pr, !.pdenom = pd])
+
+ProbeCall ==
+  \E who \in Consumers, ps \in ProvSeqs \cup {<<"u1", "u1">>}, svc \in {SVC, "nosuch", "9bad"}, cap \in {0, 4},
+     d \in {D} \cup WrongDenoms, to \in {1, MaxTimeout + 1}, rk \in FreeRanks(st) \cup {0} :
+    /\ Step([E("Call", who) EXCEPT !.svc = svc, !.provs = ps, !.amt = cap, !.ddenom = d, !.timeout = to, !.rank = rk])
+    /\ ~ev'.ok \/ (st.seq < MaxCtx /\ rk # 0)
+
+ProbeWithdraw ==
+  \/ \E o \in Users, p \in Users : Step([E("Withdraw", o) EXCEPT !.prov = p])
+  \/ \E o \in Users, to \in BlockedNames : Step([E("SetWithdraw", o) EXCEPT !.to = to])
+
+NextP ==
+  \/ Next
+  \/ SetupDone(st) /\ (ProbeCtx \/ ProbeRespond \/ ProbeBinding \/ ProbeCall \/ ProbeWithdraw)
+
+ProbeLen == 4
+(* the kinds of events; drawing the kind first means only that kind's successors are enumerated *)
+ActEnd == EndBlock
+(* while a request priced in the second denom is in flight and a rate exists, a rate change takes the
+   rate away (its expiry then slashes a binding whose minimum deposit cannot be computed) *)
+ActRate ==
+  IF ~NoRate(st) /\ <<0, 1>> \in RateVals /\ (\E r \in st.active : r \in DOMAIN st.req /\ st.req[r].fdenom # D)
+  THEN Step([E("SetRate", "") EXCEPT !.rn = 0, !.rd = 1])
+  ELSE SetRate
+ActRespond == Respond \/ ProbeRespond
+ActCtx == Control \/ Update \/ ProbeCtx
+ActBind == BindingOps \/ ProbeBinding
+ActCall == Call \/ ModCall \/ ProbeCall
+ActWd == Withdraw \/ WithdrawAll \/ SetWithdraw \/ ProbeWithdraw
+(* an accepted event of the prefix: kind by k (block ends 30 %, rate changes 8 %, answers 14 %, consumer
+   commands 12 %, provider commands 10 %, calls 12 %, withdrawals 4 %, anything 10 %); a kind that has no
+   accepted event in the current state falls back to anything accepted *)
+OkOf(A) == A /\ ev'.ok
+Prefix(A) == IF ENABLED OkOf(A) THEN OkOf(A) ELSE OkOf(NextP)
+PrefixStep(k) ==
+  IF k <= 30 THEN Prefix(ActEnd)
+  ELSE IF k <= 38 THEN Prefix(ActRate)
+  ELSE IF k <= 52 THEN Prefix(ActRespond)
+  ELSE IF k <= 64 THEN Prefix(ActCtx)
+  ELSE IF k <= 74 THEN Prefix(ActBind)
+  ELSE IF k <= 86 THEN Prefix(ActCall)
+  ELSE IF k <= 90 THEN Prefix(ActWd)
+  ELSE OkOf(NextP)
+(* a closing probe: a REJECTED event (never a block end); consumer commands 30 %, answers 20 %, provider
+   commands 25 %, calls 15 %, withdrawals 10 % *)
+RejOf(A) == A /\ ~ev'.ok /\ ev'.name # "EndBlock"
+Closing(A) == IF ENABLED RejOf(A) THEN RejOf(A) ELSE RejOf(NextP)
+ProbeStep(k) ==
+  IF k <= 30 THEN Closing(ActCtx)
+  ELSE IF k <= 50 THEN Closing(ActRespond)
+  ELSE IF k <= 75 THEN Closing(ActBind)
+  ELSE IF k <= 90 THEN Closing(ActCall)
+  ELSE Closing(ActWd)
+
+GenDepthP == atoi(IOEnv.GEN_DEPTH)
+GenNextP ==
+  \E k \in {RandomElement(1..(100 + 0 * st.h))} :
+    IF ~SetupDone(st) THEN Next
+    ELSE IF Len(hist) >= GenDepthP - ProbeLen THEN ProbeStep(k)
+    ELSE PrefixStep(k)
+GenSpecP == Init /\ [][GenNextP]_vars
 
 -----------------------------------------------------------------------------
 (* Clauses in checkable form *)
